@@ -715,6 +715,34 @@ func runNestedCount(c *core.Ctx) {
 		}
 		n++
 		key := fmt.Sprintf("NewNested:goroutine#%d", n)
+		// however the nested Run ends (nil or error), the "a nested context has stopped" channel ends up closed: every
+		// path from Run's return to the goroutine's end passes the close or the receive that shows it is closed already
+		if stopped := an.Field(t, "ctxHasStopped"); stopped != nil {
+			lg := e.GraphOfLit(newN.Pkg, lit)
+			runCalls := lg.FindAtoms(func(a ast.Node) bool {
+				call, ok := a.(*ast.CallExpr)
+				return ok && an.IsMethodNamed(an.CalleeFunc(info, call), an.PkgDistsys, "MPCalContext", "Run")
+			})
+			okStop := len(runCalls) > 0
+			for _, rc := range runCalls {
+				passes, _ := lg.MustPass(rc, func(a ast.Node) bool {
+					switch x := a.(type) {
+					case *ast.CallExpr:
+						return an.IsBuiltin(info, x, "close") && len(x.Args) == 1 && an.SelectedField(info, x.Args[0]) == stopped
+					case *ast.UnaryExpr:
+						return x.Op == token.ARROW && an.SelectedField(info, x.X) == stopped
+					}
+					return false
+				}, nil)
+				if !passes {
+					okStop = false
+				}
+			}
+			c.Check(okStop, key+":signals-stopped-on-every-exit", lit.Pos(), "ctxHasStopped is closed (or seen closed) on every path after the nested Run returns",
+				"a nested context can end (e.g. normally, with a nil error) without ctxHasStopped being closed: later operations on the nested resource wait for an archetype that is gone, their Abort blocks forever and the containing context can never be stopped")
+		} else {
+			c.Lost(key+":ctxHasStopped", "field ctxHasStopped not found")
+		}
 		// first statement(s): a defer whose literal sends on ctxErrCh; no other send
 		deferred, others := 0, 0
 		for _, st := range lit.Body.List {
